@@ -4,6 +4,7 @@ from fractions import Fraction as F
 from .. import geo, shapes
 from ..shapes import spec, spec_name
 from ..run import inst
+from .. import families as fam
 
 PROPERTY = 'C04'
 ASSUMPTIONS = [
@@ -17,7 +18,9 @@ BOUNDS = {'quick': 'curves p<=3, surfaces degrees<=2 (u,v,uv), volumes degrees<=
 
 def _insert(cx, obj, xs, nums, via):
     ops = geo.M('operations')
-    if via == 'operations':
+    if via == 'operations-own-lists':
+        ops.insert_knot(obj, xs, nums)          # the caller's own list objects (re-used between calls)
+    elif via == 'operations':
         ops.insert_knot(obj, list(xs), list(nums))
     else:
         if obj.pdimension == 1:
@@ -86,7 +89,33 @@ def h_insert(cx, sp, steps, via='operations', after_sibling=False):
     cx.eq('point', shapes.evaluate(obj, prm), shapes.evaluate(ref, prm))
 
 
-def h_insert_helper(cx, p, kv, num, dim=2, give_span=False):
+def h_reused_lists(cx, sp):
+    """function-level insert_knot called twice with ONE `num` list object: first v only (u skipped with None), then u only"""
+    ops = geo.M('operations')
+    obj, info = shapes.build(cx, sp)
+    ref = shapes.clone(obj)
+    before = shapes.snapshot(obj)
+    xs = []
+    for d in range(2):
+        kv, p = before['kvs'][d], before['degs'][d]
+        x = cx.real('x' + shapes.DIRS[d], param=True)
+        cx.assume(x > kv[p], check=False)
+        cx.assume(x < kv[len(kv) - p - 1], check=False)
+        cx.snap(x, kv)
+        if shapes.multiplicity(cx, x, kv) + 1 > p:
+            cx.assume(False)
+        xs.append(x)
+    num = [1, 1]
+    ops.insert_knot(obj, [None, xs[1]], num)
+    ops.insert_knot(obj, [xs[0], None], num)
+    after = shapes.snapshot(obj)
+    for d in range(2):
+        cx.check('size_%s' % shapes.DIRS[d], after['sizes'][d] == before['sizes'][d] + 1, 'size %s -> %s' % (before['sizes'][d], after['sizes'][d]))
+    prm = shapes.sym_params(cx, ref)
+    cx.eq('point', shapes.evaluate(obj, prm), shapes.evaluate(ref, prm))
+
+
+def h_insert_helper(cx, p, kv, num, dim=2, give_span=False, alias=False):
     """helpers.knot_insertion / knot_insertion_kv called directly (default s / span arguments)"""
     H = geo.M('helpers')
     n = len(kv) - p - 1
@@ -104,6 +133,11 @@ def h_insert_helper(cx, p, kv, num, dim=2, give_span=False):
     if give_span:
         kw.update({'s': s, 'span': span})
     arg_P = [list(q) for q in P]
+    if alias:
+        # a doubled control point given as ONE list object appearing twice
+        P = [P[0], P[1], P[1]] + [list(q) for q in P[3:]]
+        arg_P = [list(q) for q in P]
+        arg_P[2] = arg_P[1]
     new_P = H.knot_insertion(p, list(K), arg_P, x, **kw)
     new_kv = H.knot_insertion_kv(list(K), x, span, num)
     cx.eq('input_unmodified', arg_P, P)
@@ -149,6 +183,13 @@ def instances(tier):
             add(spec('curve', (p,), ((),), rational=True), [{0: 1}, {0: p - 1}])
         if not quick:
             add(spec('curve', (p,), ((1,),), rational=False), [{0: 1}, {0: 1}, {0: 1}], timeout=1200)
+    add(spec('curve', (2,), ((2,),), rational=False, tuple_kv=True), [{0: 1}])
+    add(spec('surface', (1, 2), ((1,), (1,)), rational=True, tuple_kv=True), [{0: 1, 1: 2}], timeout=1200)
+    out.append(inst('surface p2,1 insert_knot twice with one num list', h_reused_lists, timeout=1200, sp=spec('surface', (2, 1), ((1,), (1,)), rational=False)))
+    out.append(inst('surface p1,2 rat insert_knot twice with one num list', h_reused_lists, timeout=1200, sp=spec('surface', (1, 2), ((), (1,)), rational=True)))
+    for p_ in (2, 3):
+        out.append(inst('helper knot_insertion p%d doubled point object' % p_, h_insert_helper, timeout=600, p=p_, kv=fam.pattern(p_, (1, 1)), num=1, alias=True))
+        out.append(inst('helper knot_insertion p%d doubled point object num%d' % (p_, p_), h_insert_helper, timeout=600, p=p_, kv=fam.pattern(p_, (1, 1)), num=p_, alias=True))
     # knot vectors moved by a symbolic offset of any magnitude
     add(spec('curve', (2,), ((1, 1),), rational=False, shifted=True), [{0: 1}])
     add(spec('curve', (3,), ((2,),), rational=True, shifted=True), [{0: 2}])
@@ -176,7 +217,6 @@ def instances(tier):
     add(spec('volume', (2, 1, 1), ((), (), (1,)), rational=True), [{0: 2}], timeout=1800)
     add(spec('volume', (1, 2, 1), ((1,), (), ()), rational=False), [{1: 2}], timeout=1800)
     add(spec('volume', (1, 2, 1), ((1,), (), ()), rational=False), [{1: 3}], timeout=1800)
-    from .. import families as fam
     for p in (1, 2, 3):
         for m in sorted(set([(1,), (1, 1), (p, 1)])):
             for num in sorted(set([1, p])):
